@@ -38,16 +38,17 @@ class Config(Bunch, metaclass=NamespaceableMeta):
         if not isinstance(config_dict, ConfigDict):
             config_dict = ConfigDict(config_dict)
 
+        # (an empty config has a source tree and user data like any other)
+        self._source = config_dict
+        if eval_ctx is None:
+            eval_ctx = EvalContext()
         if config_dict:
             Config.check_missing(config_dict)
-            self._source = config_dict
             pre_evaluate = copy.deepcopy(config_dict)
-            if eval_ctx is None:
-                eval_ctx = EvalContext()
             evaluated = eval_ctx.evaluate(pre_evaluate)
-            self._user_data = eval_ctx.user_data
         else:
             evaluated = {}
+        self._user_data = eval_ctx.user_data
 
         super().__init__(evaluated)
 
